@@ -10,14 +10,12 @@ HERE = os.path.dirname(os.path.dirname(os.path.abspath(__file__)))
 sys.path.insert(0, HERE)
 props = [json.loads(l)['id'] for l in open(os.path.join(HERE, 'properties.jsonl'))]
 PENDING = {}
-try:
-    PENDING = json.load(open(os.path.join(HERE, 'tools', 'not_claimed.json')))
-except FileNotFoundError:
-    pass
+# only checks reviewed and swept on the unchanged tree are claimed: tools/claimed.txt is the allow-list
+CLAIMED = set(open(os.path.join(HERE, 'tools', 'claimed.txt')).read().split())
 checks, na, engines = [], [], []
 for pid in props:
     path = os.path.join(HERE, 'checks', pid.lower() + '.py')
-    if not os.path.exists(path) or pid in PENDING:
+    if not os.path.exists(path) or pid not in CLAIMED:
         na.append({'property_id': pid, 'reason': PENDING.get(pid, 'no check registered yet (work in progress; the design is in DESIGN.md section 4)')})
         continue
     mod = importlib.import_module('checks.' + pid.lower())
